@@ -30,7 +30,8 @@ RULE = ('cases = (ranked chi² vector over {1, 2, 3.5, +inf, NaN} of length 0..5
 REQUIRED_BRANCHES = ['form_A', 'form_N', 'form_C', 'form_D', 'form_E', 'form_F', 'empty', 'tie', 'inf', 'nan',
                      'nan_first', 'inf_first', 'n_gt_total', 'n_fractional', 'keeps_none', 'keeps_all', 'keeps_some',
                      'cut_between_distinct', 'flags_non_fitted', 'ndata0_E', 'ndata0_F', 'ndata0_empty_flags', 'thr_pinf', 'thr_ninf', 'thr_nan', 'num_int', 'num_np_float64',
-                     'num_np_int64', 'num_np_float32', 'fitted', 'fitted_from_fitter', 'fitted_from_file', 'fitted_pair', 'nfits_read_before_keep', 'nfits_read_between_keeps', 'pair_idem', 'pair_looser', 'pair_stricter', 'long']
+                     'num_np_int64', 'num_np_float32', 'fitted', 'fitted_from_fitter', 'fitted_from_file', 'fitted_pair', 'nfits_read_before_keep', 'nfits_read_between_keeps', 'flags_edited_in_place', 'flags_edited_shared_array',
+                     'flags_replaced_by_setter', 'ndata_changed_by_edit', 'fitted_flags_edited', 'pair_idem', 'pair_looser', 'pair_stricter', 'long']
 ASSUMPTIONS = ['rounding of (chi2 - chi2[0]) / n_data is not modelled: thresholds are kept at least 1e-6 (relative) away '
                'from every attained criterion value, so the float and the exact comparison cannot differ',
                'n_data = 0 (no point flagged 1 or 4) is in the domain: chi2 / 0 follows IEEE (x/0 = +inf for x > 0, 0/0 = nan), '
@@ -173,6 +174,27 @@ def typed_number(v, numtype):
     return float(v)
 
 
+EDIT_MODES = ['source', 'shared', 'setter']
+
+
+def with_flag_edit(case, flags_before, mode):
+    """history on ONE Source object: it is created with `flags_before`, n_data is read (as fit() does for every source),
+    then the flags become case['flags'] - edited in place through source.valid[i] = f ('source'), through the array the
+    caller handed to the setter and still holds ('shared'), or by assigning a new array ('setter')"""
+    assert len(flags_before) == len(case['flags'])
+    case['flags_before'] = list(flags_before)
+    case['edit'] = mode
+    return case
+
+
+def rand_flags_before(rng, flags):
+    out = list(flags)
+    for _ in range(rng.randint(1, max(1, len(flags)))):
+        i = rng.randrange(len(flags))
+        out[i] = rng.choice([0, 1, 2, 3, 4, 9])
+    return out
+
+
 def mk_case(chi2, flags, sels, tag=None, numtypes=None):
     """sels: (form, number) pairs; numtypes: per selector the Python type the number is passed in"""
     js = []
@@ -222,6 +244,12 @@ def directed():
     yield mk_case([1, 2, 2, I, Nn], [1, 4, 2], [('N', 2), ('D', 0.5)], numtypes=['np.int64', 'np.float64'])
     yield mk_case([1, 2, 2, I, Nn], [1, 4, 2], [('E', 1.25), ('N', 2.5)], numtypes=['np.float32', 'np.float32'])
     yield mk_case([1, 2, 2, I, Nn], [1, 4, 2], [('F', 1), ('C', 4)], numtypes=['np.int64', 'int'])
+    # the flags of the same Source object change between uses: n_data must follow the flags as they are now
+    yield with_flag_edit(mk_case([1, 2, 2, 3.5, I], [1, 0, 0, 1], [('E', 0.75)]), [1, 1, 1, 1], 'source')
+    yield with_flag_edit(mk_case([1, 2, 2, 3.5, I], [1, 0, 0, 1], [('F', 0.75)]), [1, 1, 1, 1], 'shared')
+    yield with_flag_edit(mk_case([1, 2, 2, 3.5, I], [1, 4, 1, 1], [('E', 0.75), ('F', 0.5)]), [1, 0, 9, 2], 'source')
+    yield with_flag_edit(mk_case([1, 2, 2, 3.5, I], [2, 3, 0, 9], [('E', 3.75)]), [1, 1, 4, 4], 'shared')
+    yield with_flag_edit(mk_case([1, 2, 2, 3.5, I], [1, 0, 0, 1], [('E', 0.75)]), [1, 1, 1, 1], 'setter')
     for i in range(3):
         yield fitted_case(case_rng(0, PID, 'directed-fitted-%d' % i))
     rng = case_rng(0, PID, 'directed-long')
@@ -252,7 +280,10 @@ def long_case(rng, pair):
     sels = [rand_sel(rng, vals, flags) for _ in range(2 if pair else 1)]
     if pair and rng.random() < 0.3:
         sels[1] = sels[0]
-    return mk_case(vals, flags, sels, tag='long', numtypes=[rng.choice(NUMTYPES) for _ in sels])
+    c = mk_case(vals, flags, sels, tag='long', numtypes=[rng.choice(NUMTYPES) for _ in sels])
+    if flags and rng.random() < 0.25:
+        with_flag_edit(c, rand_flags_before(rng, flags), rng.choice(EDIT_MODES))
+    return c
 
 
 def fitted_case(rng):
@@ -294,6 +325,15 @@ def all_single_cases():
                     yield mk_case(chi2, flags, [sel])
 
 
+def flag_edit_cases(chi2, rng):
+    """E / F selectors on a source whose flags were edited after n_data had been read (all three ways)"""
+    for before, after in (([1, 1, 1, 1], [1, 0, 0, 1]), ([1, 0, 9, 2], [1, 4, 1, 1]), ([1, 4], [2, 3]), ([0, 9], [1, 4])):
+        sels = [x for x in selectors_for(chi2, after) if x[0] in 'EF']
+        for mode in EDIT_MODES:
+            for x in rng.sample(sels, min(3, len(sels))):
+                yield with_flag_edit(mk_case(chi2, after, [x]), before, mode)
+
+
 def pair_cases_for(chi2, flags, rng, per_pair):
     sels = selectors_for(chi2, flags)
     by_form = {f: [s for s in sels if s[0] == f] for f in FORMS}
@@ -321,6 +361,9 @@ def gen_cases(seed, tier):
             i += 1
             for c in pair_cases_for(chi2, rng.choice(FLAG_SETS), rng, per_pair=3):
                 yield c
+            if chi2:
+                for c in flag_edit_cases(chi2, rng):
+                    yield c
         for k in range(4000):
             rng = case_rng(seed, PID, 'long-%d' % k)
             yield long_case(rng, pair=(k % 2 == 1))
@@ -339,11 +382,14 @@ def gen_cases(seed, tier):
             flags = rng.choice(FLAG_SETS)
             sels = selectors_for(chi2, flags)
             if u < 0.55:
-                yield mk_case(chi2, flags, [rng.choice(sels)], numtypes=[rng.choice(NUMTYPES)])
+                c = mk_case(chi2, flags, [rng.choice(sels)], numtypes=[rng.choice(NUMTYPES)])
             else:
                 s1 = rng.choice(sels)
                 s2 = s1 if rng.random() < 0.25 else rng.choice(sels)
-                yield mk_case(chi2, flags, [s1, s2], numtypes=[rng.choice(NUMTYPES), rng.choice(NUMTYPES)])
+                c = mk_case(chi2, flags, [s1, s2], numtypes=[rng.choice(NUMTYPES), rng.choice(NUMTYPES)])
+            if flags and rng.random() < 0.2:
+                with_flag_edit(c, rand_flags_before(rng, flags), rng.choice(EDIT_MODES))
+            yield c
     for k in range(N_FITTED[tier]):
         yield fitted_case(case_rng(seed, PID, 'fitted-%d' % k))
 
@@ -501,7 +547,34 @@ def property_side(case):
         if len(js) > 2 and s[0] != 'A':
             br.add('num_' + js[2].replace('.', '_'))
     what = 'chi2=%r flags=%r' % (case['chi2'], flags)
-    ok, detail, ns, rows = evaluate(chi2, pay, flags, sels, typed, lambda: ef.build_info(chi2, pay, flags=flags), br, what)
+    fresh = lambda: ef.build_info(chi2, pay, flags=flags)
+    if 'flags_before' in case:
+        mode = case['edit']
+        br.add({'source': 'flags_edited_in_place', 'shared': 'flags_edited_shared_array', 'setter': 'flags_replaced_by_setter'}[mode])
+        if n_data_of(case['flags_before']) != nd:
+            br.add('ndata_changed_by_edit')
+        what += (' (the source was created with flags %r, n_data was read once, then the flags were changed %s)'
+                 % (case['flags_before'], {'source': 'in place: source.valid[i] = f', 'setter': 'by assigning a new array',
+                                           'shared': 'in place through the array the caller had handed to the setter'}[mode]))
+
+        def fresh():
+            info = ef.build_info(chi2, pay, flags=case['flags_before'])
+            src = info.source
+            arr = np.array(case['flags_before'], dtype=int)
+            if mode == 'shared':
+                src.valid = arr
+            seen = int(src.n_data)
+            if seen != n_data_of(case['flags_before']):
+                raise StaleNFits('n_data = %d for flags %r' % (seen, case['flags_before']))
+            if mode == 'source':
+                for i_, f_ in enumerate(flags):
+                    src.valid[i_] = f_
+            elif mode == 'shared':
+                arr[:] = flags
+            else:
+                src.valid = np.array(flags, dtype=int)
+            return info
+    ok, detail, ns, rows = evaluate(chi2, pay, flags, sels, typed, fresh, br, what)
     return ok, detail, br, ns, rows
 
 
@@ -572,24 +645,43 @@ def run_fitted(case, with_model=True):
             if not ef.rows_equal(ef.rows_of_info(from_file()), rows):
                 return CaseResult(False, detail='source %d: the record read back from the fit file differs from what Fitter.fit '
                                   'returned' % si, violates=None, branches=br, key=key)
-            for origin, fresh in (('fitter', from_fitter), ('file', from_file)):
+            # the fitted Source object lives on: n_data read, then one fitted band is dropped in place
+            fitted_idx = [j for j, f in enumerate(flags) if f in (1, 4)]
+            jdrop = rng.choice(fitted_idx)
+            flags_edited = [0 if j == jdrop else f for j, f in enumerate(flags)]
+
+            def edited():
+                x = copy.deepcopy(info)
+                x.source.n_data
+                x.source.valid[jdrop] = 0
+                return x
+
+            for origin, fresh in (('fitter', from_fitter), ('file', from_file), ('edited', edited)):
+                use_flags = flags_edited if origin == 'edited' else flags
                 for trial in range(3):
-                    sels = [rand_sel(rng, chi2, flags) for _ in range(rng.choice([1, 2]))]
+                    sels = [rand_sel(rng, chi2, use_flags) for _ in range(rng.choice([1, 2]))]
+                    if origin == 'edited':
+                        sels = [rand_sel(rng, chi2, use_flags) for _ in range(12)]
+                        sels = ([x for x in sels if x[0] in 'EF'] or sels)[:2]
+                        br.add('fitted_flags_edited')
                     nts = [rng.choice(NUMTYPES) for _ in sels]
                     nts = [nt if typed_ok(f, v, nt) else 'float' for (f, v), nt in zip(sels, nts)]
                     typed = [(f, typed_number(v, nt)) for (f, v), nt in zip(sels, nts)]
-                    br.add('fitted_from_' + origin)
+                    if origin != 'edited':
+                        br.add('fitted_from_' + origin)
                     if len(sels) == 2:
                         br.add('fitted_pair')
                     for f_, _ in sels:
                         br.add('form_' + f_)
                     what = 'result of Fitter.fit (%s) for source %d, chi2=%r, flags=%r' % (
-                        'as returned' if origin == 'fitter' else 'read back from a fit file', si, [ef.js(c) for c in chi2], flags)
-                    ok, detail, ns, got = evaluate(chi2, pay, flags, sels, typed, fresh, br, what)
+                        {'fitter': 'as returned', 'file': 'read back from a fit file',
+                         'edited': 'as returned; n_data read, then source.valid[%d] = 0 on the same Source object' % jdrop}[origin],
+                        si, [ef.js(c) for c in chi2], use_flags)
+                    ok, detail, ns, got = evaluate(chi2, pay, use_flags, sels, typed, fresh, br, what)
                     if not ok:
                         return CaseResult(False, detail=detail, violates=True, branches=br, key=key)
                     if with_model:
-                        m_ns, m_rows = ask_model(chi2, pay, flags, sels)
+                        m_ns, m_rows = ask_model(chi2, pay, use_flags, sels)
                         if m_ns != ns or not ef.rows_equal(m_rows, got):
                             return CaseResult(False, detail='model and implementation differ (%s, selectors %r): model n_fits=%r rows=%r; '
                                               'impl n_fits=%r rows=%r' % (what, sels, m_ns, m_rows, ns, got),
